@@ -26,12 +26,14 @@ impl<T: PrimInt + FromPrimitive + Hash + IntHelp + ToPrimitive, KS: KmerSize> Ra
     }
 }
 
-pub const TYPES: [(&str, usize); 22] = [
+pub const TYPES: [(&str, usize); 25] = [
     ("Kmer2", 2), ("Kmer3", 3), ("Kmer4", 4), ("Kmer5", 5), ("Kmer6", 6), ("Kmer8", 8), ("Kmer10", 10), ("Kmer12", 12),
     ("Kmer14", 14), ("Kmer15", 15), ("Kmer16", 16), ("Kmer20", 20), ("Kmer24", 24), ("Kmer30", 30), ("K31", 31),
     ("Kmer32", 32), ("Kmer40", 40), ("Kmer48", 48), ("Kmer64", 64),
     // VarIntKmer instances that are no alias: the only one that fills its storage, and two with much spare room
     ("VK4", 4), ("V16K4", 4), ("V128K31", 31),
+    // user-defined sizes (KmerSize is a public trait): odd K beyond 32
+    ("V128K33", 33), ("V128K41", 41), ("V128K63", 63),
 ];
 
 #[macro_export]
@@ -56,6 +58,9 @@ macro_rules! with_named_kmer {
             "VK4" => $f::<debruijn::kmer::VarIntKmer<u8, debruijn::kmer::K4>>($($args),*),
             "V16K4" => $f::<debruijn::kmer::VarIntKmer<u16, debruijn::kmer::K4>>($($args),*),
             "V128K31" => $f::<debruijn::kmer::VarIntKmer<u128, debruijn::kmer::K31>>($($args),*),
+            "V128K33" => $f::<debruijn::kmer::VarIntKmer<u128, $crate::util::K33>>($($args),*),
+            "V128K41" => $f::<debruijn::kmer::VarIntKmer<u128, $crate::util::K41>>($($args),*),
+            "V128K63" => $f::<debruijn::kmer::VarIntKmer<u128, $crate::util::K63>>($($args),*),
             "Kmer32" => $f::<debruijn::kmer::Kmer32>($($args),*),
             "Kmer40" => $f::<debruijn::kmer::Kmer40>($($args),*),
             "Kmer48" => $f::<debruijn::kmer::Kmer48>($($args),*),
